@@ -206,7 +206,7 @@ def check_api(ctx: Ctx, inp) -> None:
     schema = _schema(server.url)
     c, via, extra = inp["case"], inp["via"], inp["extra"]
     op = schema["/u/{id}"][c["method"]]
-    case = op.Case(**{k: v for k, v in c.items() if k != "method"})
+    case = op.Case(**{k: v for k, v in c.items() if k not in ("method", "userinfo")})
     message = None
     try:
         if via == "call_and_validate_headers":
